@@ -19,11 +19,12 @@ from common import (CACHE, ToolError, build_harness, load_known, log, repo_state
 
 PROP_GROUPS = {
     "C01": ["store"], "C02": ["conc"], "C03": ["conc"], "C05": ["store"], "C06": ["store", "conc", "http"],
-    "C07": ["store"], "C08": ["store"], "C09": ["store", "conc"], "C11": ["conc"], "C12": ["store", "http"],
+    "C07": ["store"], "C08": ["store"], "C09": ["store", "conc"], "C11": ["conc"], "C12": ["codec", "store", "http"],
     "C13": ["http"], "C20": ["store", "http"],
 }
 
 ASSUME = {
+    "codec": ["numbers are canonical decimal strings in the model (TLC integers are 32 bit); JSON values of metas are sampled by class in the store/http groups, not enumerated"],
     "http": ["requests are raw HTTP/1.1 over the unix socket, one connection per request (Connection: close)",
              "topics sent in the request line are URL-safe ASCII; NUL topics reach the server only through POST /import",
              "a rejected append may leave an orphan CAS object; 'changes nothing' means frames, indexes and registry"],
